@@ -37,6 +37,15 @@ func nsOperands() []gen.Expr {
 		relPath(gen.Ch("text()")), relPath(gen.Dot()), relPath(gen.Ch("nosuch")), relPath(gen.Ch("a"), gen.Ch("a"))}
 }
 
+// cursorMovers: node-set operands whose evaluation walks away from the context
+// node (long axes) or moves the shared context cursor (predicates): what
+// follows them in and/or or in a comparison must still see the context node.
+func cursorMovers() []gen.Expr {
+	return []gen.Expr{relPath(gen.St("following", "node()")), relPath(gen.St("following", "a")), relPath(gen.St("preceding", "node()")), relPath(gen.St("preceding", "a")),
+		relPath(gen.Ch("*", relPath(gen.At("x")))), relPath(gen.Ch("a", relPath(gen.Ch("text()")))), relPath(gen.St("ancestor", "*")), relPath(gen.St("descendant", "node()")),
+		relPath(gen.Ch("*", gen.B("=", relPath(gen.Dot()), gen.S("1")))), relPath(gen.St("following-sibling", "*")), relPath(gen.St("preceding-sibling", "node()"))}
+}
+
 var cmpOps = []string{"=", "!=", "<", "<=", ">", ">="}
 
 // existential non-triviality: some node-set operand has >= 2 nodes of which
@@ -161,6 +170,30 @@ func c07Spaces(tier string) []*explore.Space {
 			}
 		}
 	}
+	// K5: a cursor-moving operand first, a context-dependent operand second:
+	// at top level and inside a predicate
+	var k5 []gen.Expr
+	var k5h []hostCase
+	ctxDep := []gen.Expr{relPath(gen.Dot()), relPath(gen.At("x")), relPath(gen.Ch("a")), relPath(gen.Ch("text()")), gen.B("=", relPath(gen.Dot()), gen.S("1")), gen.B("=", relPath(gen.At("x")), gen.S("1")),
+		gen.B(">", gen.F("count", relPath(gen.Ch("*"))), gen.N(0)), gen.F("not", relPath(gen.Ch("a")))}
+	for _, mv := range cursorMovers() {
+		for _, cd := range ctxDep {
+			for _, op := range []string{"and", "or"} {
+				k5 = append(k5, gen.B(op, mv, cd), gen.B(op, gen.F("not", mv), cd), gen.B(op, cd, mv))
+				for _, h := range []gen.Step{gen.Ch("*"), gen.St("descendant-or-self", "node()")} {
+					k5h = append(k5h, hostCase{relPath(withPred(h, gen.B(op, mv, cd))), relPath(h)}, hostCase{relPath(withPred(h, gen.B(op, gen.F("not", mv), cd))), relPath(h)})
+				}
+			}
+		}
+		for _, cd := range []gen.Expr{relPath(gen.Dot()), relPath(gen.At("x")), relPath(gen.Ch("a")), relPath(gen.Ch("text()"))} {
+			for _, op := range []string{"=", "!="} {
+				k5 = append(k5, gen.B(op, mv, cd), gen.B(op, cd, mv))
+				for _, h := range []gen.Step{gen.Ch("*"), gen.St("descendant-or-self", "node()")} {
+					k5h = append(k5h, hostCase{relPath(withPred(h, gen.B(op, mv, cd))), relPath(h)})
+				}
+			}
+		}
+	}
 	n := 3
 	if tier == "thorough" {
 		n = 4
@@ -172,6 +205,8 @@ func c07Spaces(tier string) []*explore.Space {
 		exprSpace(fmt.Sprintf("K2xV%d", n), "and/or over operands of every type incl. short-circuit witnesses", k2, docs, ev),
 		exprSpace(fmt.Sprintf("K3xV%d", n), "not()/boolean()/true()/false(), nested twice", k3, docs, ev),
 		hostSpace(fmt.Sprintf("K4xV%d", n), "the same comparisons inside a predicate", k4, docs, "C07"),
+		exprSpace(fmt.Sprintf("K5xV%d", n), "and/or and =/!= whose first operand walks a long axis or carries a predicate and whose second operand depends on the context node", k5, docs, ev),
+		hostSpace(fmt.Sprintf("K5pxV%d", n), "the same inside a predicate", k5h, docs, "C07"),
 	}
 }
 
